@@ -196,16 +196,35 @@ def run_case(spec, j):
   with Quiet():
     try:
       f1.fit()
-      est2.fit(*args2)
     except Exception as e:
+      # (whether fit may raise on the original data is C03's question)
       api.set_well_formed(False)
       j.skip('fit', 'raised-%s' % type(e).__name__)
       j.note('fit raised %r %s' % (e, spec))
       return
+    try:
+      est2.fit(*args2)
+    except Exception as e:
+      api.set_well_formed(False)
+      if name.startswith('SDML') and isinstance(e, RuntimeError):
+        j.skip('fit', 'sdml-solver-failure-on-transformed-data')
+        return
+      # the same geometry, presented differently, must be learnable too
+      j.violated('C19.%s.%s' % (rel, name),
+                 dict(det, why='fit on the original data returned, fit on '
+                      'the transformed data raised', raised=repr(e)[:300]),
+                 mechanism='transformed-fit-raised-' + type(e).__name__)
+      return
   api.set_well_formed(False)
   L1, L2 = f1.est.components_, est2.components_
-  if not (np.all(np.isfinite(L1)) and np.all(np.isfinite(L2))):
+  if not np.all(np.isfinite(L1)):
     j.skip('C19', 'degenerate-model')
+    return
+  if not np.all(np.isfinite(L2)):
+    j.violated('C19.%s.%s' % (rel, name),
+               dict(det, why='finite model on the original data, non-finite '
+                    'model on the transformed data'),
+               mechanism='transformed-fit-non-finite')
     return
   Q = X[rng.randint(0, n, size=(30, 2))] + rng.randn(30, 2, d) * 0.25
   with Quiet():
